@@ -22,6 +22,7 @@ import Ptn.C17.FlatValid
 import Ptn.C17.FlatSegs
 import Ptn.C17.FlatDistAny
 import Ptn.C17.FlatCache
+import Ptn.C17.FlatNN
 /-! Property theorems for C17 (tree navigation, TDVP sweep order, initial cache keys).  Only
 property theorems and non-vacuity examples live here; helper lemmas are in `Lemmas.lean`,
 `Tree.lean`, `Path.lean`, ….  All theorems quantify over every ordered rooted tree `t` with
